@@ -6,26 +6,44 @@
    run_impl = the code: Python calls (positional + keyword arguments) bound against each
    evaluate() signature, inspect-based accepts_seats / accepts_prev_gains dispatch.
    run_spec = the by-hand composition over semantic arguments, deciding what a part is given
-   from what it semantically takes.  The shared parts (VoteTotals, SubsettedVotes,
-   add_dict_to_dict, tie replacement) are one definition used by both - the theorem is about
-   forwarding; the parts are characterised separately below and tied to the code by correspondence. *)
+   from what it semantically takes.  VoteTotals and SubsettedVotes have a code-shaped definition
+   (run_impl: nested add_dict_to_dict, defaultdict accumulation) and a declarative one (run_spec:
+   sums in first-appearance order, a filter), proved equal on every value (C14_parts_agree), so the
+   composition theorem speaks about them too; add_dict_to_dict at one level, the tie replacement and
+   the unused-vote arithmetic are one definition used by both, characterised separately below and
+   tied to the code by correspondence. *)
 From Coq Require Import ZArith List Bool Lia.
-From VL Require Import Model.Wrappers Proofs.Wrappers_proofs Proofs.TieBreak_proofs.
+From VL Require Model.Overhang Model.OverhangByC.
+From VL Require Import Model.Wrappers Proofs.Wrappers_proofs Proofs.TieBreak_proofs Proofs.WrapParts_proofs
+  Proofs.WrapOverhang_proofs Proofs.WrapOverhangByC_proofs.
 Import ListNotations.
 Open Scope Z_scope.
 
 (* ---- composition: any nesting, any depth, both call styles, every input *)
+(* wrapper trees: PreConverted, PostConverted, FixedSeatCount, Conditioned, ByConstituency (fixed / delegated / distributor
+   apportionment, the distributor possibly SEATLESS), PreApportioned, RemovedApportionment, ByParty (overall evaluator possibly
+   seatless), MultistageDistributor, TieBreaking, PartyListEvaluator (closed / open), VotingSystem, UnusedVotesDistributor
+   (any depth; quota functions arbitrary), AdjustedSeatCount (calculator arbitrary, or AllowOverhang / LevelOverhang over a
+   tree).  [fits]: every supplied argument is one the tree takes; [seat_fits]: the seat count supplied (a number, a
+   dictionary, None / omitted) is of a kind every seatless apportioner / overall evaluator it reaches can be called with. *)
 Definition C14_compose_full_statement : Prop :=
   forall leaf conv t, wt t = true ->
-  forall st sa votes, fits t sa = true ->
+  forall st sa votes, fits t sa = true -> seat_fits t sa = true ->
   run_impl leaf conv t votes (mk_call st sa) = run_spec leaf conv t votes sa.
 
 (* proved under [faithful t]: wherever a wrapper inspects a part's signature, the answer of
    accepts_seats / accepts_prev_gains is what the part really takes *)
 Theorem C14_compose_partial : forall leaf conv t, wt t = true -> faithful t = true ->
+  forall st sa votes, fits t sa = true -> seat_fits t sa = true ->
+  run_impl leaf conv t votes (mk_call st sa) = run_spec leaf conv t votes sa.
+Proof. intros leaf conv t Hw Hf st sa votes Hs Hn. exact (compose leaf conv t Hw Hf st sa votes Hs Hn). Qed.
+
+(* when every distributor apportioner and every overall evaluator takes a seat count ([seated], the typing of the first
+   version of this theorem) no condition on the seat argument is needed *)
+Theorem C14_compose_seated_partial : forall leaf conv t, wt t = true -> seated t = true -> faithful t = true ->
   forall st sa votes, fits t sa = true ->
   run_impl leaf conv t votes (mk_call st sa) = run_spec leaf conv t votes sa.
-Proof. intros leaf conv t Hw Hf st sa votes Hs. exact (compose leaf conv t Hw Hf st sa votes Hs). Qed.
+Proof. intros leaf conv t Hw Hse Hf st sa votes Hs. exact (compose_seated leaf conv t Hw Hse Hf st sa votes Hs). Qed.
 
 (* the hypotheses are satisfiable by a depth-4 tree mixing six wrappers *)
 Example C14_compose_nonvacuous :
@@ -33,7 +51,48 @@ Example C14_compose_nonvacuous :
                    PreAppD (ByCons (Leaf 4 LDist) ANone) (Leaf 5 LDist);
                    ByParty (Leaf 6 LDist) (Leaf 7 LDist) ] 1 in
   wt t = true /\ faithful t = true /\
-  fits t (KW (Some (VInt 5)) (Some (VDict [])) None None None None) = true.
+  fits t (KW (Some (VInt 5)) (Some (VDict [])) None None None None) = true /\
+  seat_fits t (KW (Some (VInt 5)) (Some (VDict [])) None None None None) = true.
+Proof. vm_compute. repeat split. Qed.
+
+(* ... by the shape of the Czech 2021 system: PreApportioned(Conditioned(UnusedVotesDistributor([ByConstituency(quota),
+   RemovedApportionment(ByParty(largest remainder))], [imperiali], depth 2), threshold, depth 2), apportioner) ... *)
+Example C14_compose_nonvacuous_unused :
+  let t := PreAppD (Cond (Leaf 1 LThr)
+                         (Unused [ByCons (Leaf 2 LDist) ANone; RemApp (ByPartyS (Leaf 3 LDist))] [4%positive] 1) 1)
+                   (Leaf 5 LDist) in
+  wt t = true /\ faithful t = true /\ seated t = true /\
+  fits t (KW (Some (VInt 200)) None None None None None) = true.
+Proof. vm_compute. repeat split. Qed.
+
+(* ... by the shape of the New Zealand system: MultistageDistributor([electorates, AdjustedSeatCount(AllowOverhang(pe), list)]),
+   by a levelled variant behind a VotingSystem, and by tie-breaking inside per-constituency evaluation inside a post-conversion *)
+Example C14_compose_nonvacuous_adjusted :
+  let t := Multi [ PostConv (ByCons (TieBr (TieBr (Leaf 1 LSelD) (PreConv 2 (Leaf 3 LSelD))) (Leaf 4 LSelD)) (AInt 1)) 5;
+                   AdjAllow (Leaf 6 LDist) (TieBr (Leaf 7 LDist) (Leaf 8 LSelD));
+                   VSys (AdjLevel (Cond (Leaf 9 LThr) (Leaf 10 LDist) 0) (Leaf 11 LDist) 100);
+                   AdjLeaf 12 (Leaf 13 LDist) ] 0 in
+  (* the shape of the German system: constituency seats, then ByParty with the seat count levelled by constituency *)
+  let t2 := Fixed (Multi [ ByCons (Leaf 1 LSelD) (AInt 1);
+                           PreConv 2 (AdjLevelC (ByConsD (Leaf 3 LDist) (Leaf 4 LDist)) (Leaf 5 LDist)
+                                                (ByParty (Leaf 6 LDist) (Leaf 7 LDist)) 100);
+                           AdjLevelC0 (ByConsP (Leaf 8 LDist) (ADict [(KC 101, VInt 2)]) (Leaf 9 LThr)) (ByPartyS (Leaf 10 LDist)) 100 ] 1)
+                  (VInt 598) in
+  wt t2 = true /\ faithful t2 = true /\ seated t2 = true /\ fits t2 kw_none = true /\
+  wt t = true /\ faithful t = true /\ seated t = true /\
+  fits t (KW (Some (VInt 120)) None None None None None) = true.
+Proof. vm_compute. repeat split. Qed.
+
+(* ... and by seatless parts: a seatless distributor apportioner (seat count omitted or a dictionary), a seatless overall
+   evaluator of ByParty (seat count omitted), reached through Conditioned at depth 2 *)
+Example C14_compose_nonvacuous_seatless :
+  let t1 := Cond (Leaf 1 LThr) (ByConsD (Leaf 2 LDist) (Leaf 3 LSDist)) 1 in
+  let t2 := ByParty (Leaf 4 LSDist) (Leaf 5 LDist) in
+  wt t1 = true /\ faithful t1 = true /\ seated t1 = false /\
+  seat_fits t1 kw_none = true /\ seat_fits t1 (KW (Some (VDict [(KC 101, VInt 2)])) None None None None None) = true /\
+  seat_fits t1 (KW (Some (VInt 3)) None None None None None) = false /\
+  wt t2 = true /\ faithful t2 = true /\ seated t2 = false /\
+  seat_fits t2 kw_none = true /\ seat_fits t2 (KW (Some (VInt 3)) None None None None None) = false.
 Proof. vm_compute. repeat split. Qed.
 
 (* without faithfulness the statement is false: a generic (votes, *args, **kwargs) wrapper below
@@ -47,7 +106,7 @@ Proof.
   intro H.
   specialize (H echo_leaf id_conv (ByCons (TieBr (Leaf 1 LDist) (Leaf 2 LSelD)) ANone) eq_refl PosSeats
                 (KW (Some (VInt 3)) (Some (VDict [(KC 101, VDict [(KC 1, VInt 2)])])) None None None None)
-                (VDict [(KC 101, VDict [(KC 1, VInt 60)])]) eq_refl).
+                (VDict [(KC 101, VDict [(KC 1, VInt 60)])]) eq_refl eq_refl).
   vm_compute in H. discriminate H.
 Qed.
 
@@ -60,6 +119,17 @@ Proof.
   exists (Cond (Leaf 1 LThr) (PreConv 2 (Leaf 3 LSDist)) 0),
          (KW (Some (VInt 3)) None None None None None), (VDict [(KC 1, VInt 60)]).
   split; [reflexivity|]. split; [reflexivity|]. vm_compute. intro H. discriminate H.
+Qed.
+
+(* [seat_fits] cannot be dropped: core.apportion hands a seat NUMBER to the apportioner positionally without looking at its
+   signature - a seatless apportioner (VotesPerSeat) receives it as prev_gains, where the by-hand composition would refuse *)
+Theorem C14_seat_number_to_seatless_refuted :
+  exists t sa votes, wt t = true /\ faithful t = true /\ fits t sa = true /\ seat_fits t sa = false /\
+    run_impl echo_leaf id_conv t votes (mk_call PosSeats sa) <> run_spec echo_leaf id_conv t votes sa.
+Proof.
+  exists (ByConsD (Leaf 1 LDist) (Leaf 2 LSDist)), (KW (Some (VInt 3)) None None None None None),
+         (VDict [(KC 101, VDict [(KC 1, VInt 60)])]).
+  repeat (split; [reflexivity|]). vm_compute. intro H. discriminate H.
 Qed.
 
 (* ByConstituency with every constituency at zero seats: StopIteration (known finding) *)
@@ -108,7 +178,7 @@ Proof. exact tiebreaker_sees_only_tied. Qed.
 Theorem C14_tiebreak_untied : forall brk votes l,
   existsb (fun x => match x with VKey k => is_tie k | _ => false end) l = false ->
   break_ties brk votes (VList l) = Ok (VList l).
-Proof. intros brk votes l H. unfold break_ties. rewrite H. reflexivity. Qed.
+Proof. intros brk votes l H. unfold break_ties, break_ties_g. rewrite H. reflexivity. Qed.
 
 (* ---- closed party lists: a party that won n seats gets the first n candidates of its list *)
 Theorem C14_partylist_closed : forall pl party n l,
@@ -117,7 +187,116 @@ Theorem C14_partylist_closed : forall pl party n l,
                length (firstn (Z.to_nat n) ll) = Nat.min (Z.to_nat n) (length ll).
 Proof. exact closed_list_spec. Qed.
 
+(* ---- the shared parts: the code-shaped definitions compute the declarative ones *)
+(* VoteTotals on integer counts: the candidates in the order of their first appearance, each with the sum of its counts *)
+Theorem C14_totals_declarative : forall d, nested_int d = true ->
+  vote_totals (VDict d) = Ok (VDict (totals_table (entries d))) /\
+  forall k, dget (totals_table (entries d)) k =
+            if memk k (keys_first (entries d)) then Some (VInt (total_of (entries d) k)) else None.
+Proof. intros d H. split; [exact (totals_declarative d H)|intro k; apply totals_table_lookup]. Qed.
+
+(* SubsettedVotes(SimpleSubsetter) on integer counts without repeated keys: the votes filtered to the subset *)
+Theorem C14_subset_declarative : forall d s, int_dict d = true -> nodup_keys d = true -> subset_kind s = true ->
+  subset_votes (VDict d) s = Ok (VDict (filter (fun kv => mem_b s (fst kv)) d)).
+Proof. exact subset_declarative. Qed.
+
+(* the declarative parts used by run_spec and the code-shaped parts used by run_impl agree on EVERY value *)
+Theorem C14_parts_agree :
+  (forall v, totals_s v = vote_totals v) /\ (forall v s, subset_s v s = subset_votes v s).
+Proof. split; [exact totals_s_eq|exact subset_s_eq]. Qed.
+
+Example C14_parts_nonvacuous :
+  let v := VDict [(KC 101, VDict [(KC 1, VInt 60); (KC 2, VInt 30)]); (KC 102, VDict [(KC 3, VInt 5); (KC 1, VInt 10)])] in
+  nested_int [(KC 101, VDict [(KC 1, VInt 60); (KC 2, VInt 30)]); (KC 102, VDict [(KC 3, VInt 5); (KC 1, VInt 10)])] = true /\
+  totals_s v = Ok (VDict [(KC 1, VInt 70); (KC 2, VInt 30); (KC 3, VInt 5)]) /\
+  subset_s (VDict [(KC 1, VInt 70); (KC 2, VInt 30); (KC 3, VInt 5)]) (VList [VKey (KC 3); VKey (KC 1)])
+  = Ok (VDict [(KC 1, VInt 70); (KC 3, VInt 5)]).
+Proof. vm_compute. repeat split. Qed.
+
+(* ---- UnusedVotesDistributor: the seats still to give after a stage = the seats before minus the seats of THIS stage's
+   result (previous gains and the running total do not enter) *)
+Theorem C14_unused_seats_left : forall n res, int_dict res = true ->
+  sub_gained 0 (VInt n) (VDict res) = Ok (VInt (n - sumz res)).
+Proof. exact seats_left_after_stage. Qed.
+
+(* ---- AdjustedSeatCount anywhere in a tree, around any wrapped evaluator, composed with the adjusters of Model/Overhang.v
+   (the subject of C15): if the calculator's proportional evaluator [pe] (itself any wrapper tree) answers with integer
+   distributions - seen as Model/Overhang.v's E - then AdjustedSeatCount(AllowOverhang(pe), e) / (LevelOverhang(pe), e) is
+   e evaluated with n + the adjustment of Model/Overhang.v, previous gains and seat caps unchanged *)
+Theorem C14_adjusted_allow : forall leaf conv pe e votes n prev mx E a, sees leaf conv pe votes mx E ->
+  Overhang.allow_overhang E n prev = Some a ->
+  run_spec leaf conv (AdjAllow pe e) votes (sa_npm (VInt n) (VDict (of_cz prev)) mx)
+  = run_spec leaf conv e votes (sa_npm (VInt (n + a)) (VDict (of_cz prev)) mx).
+Proof. exact adjusted_allow_tree. Qed.
+
+Theorem C14_adjusted_level : forall leaf conv pe e fuel votes n prev mx E a, sees leaf conv pe votes mx E ->
+  Overhang.level_overhang E fuel n prev = Some a ->
+  run_spec leaf conv (AdjLevel pe e fuel) votes (sa_npm (VInt n) (VDict (of_cz prev)) mx)
+  = run_spec leaf conv e votes (sa_npm (VInt (n + a)) (VDict (of_cz prev)) mx).
+Proof. exact adjusted_level_tree. Qed.
+
+(* satisfiable: a proportional evaluator that gives all seats to candidate 1, behind a converter and a VotingSystem; candidate 2
+   holds 3 seats from an earlier round - 3 overhang seats (AllowOverhang), and no house size levels them (LevelOverhang: fuel) *)
+Definition all_to_one (l : positive) (v : val) (args : list (option val)) : res val :=
+  match args with Some (VInt h) :: _ => Ok (VDict [(KC 1, VInt h)]) | _ => raise E_TYPE end.
+Example C14_adjusted_nonvacuous :
+  let pe := VSys (PreConv 7 (Leaf 1 LDist)) in
+  let E := fun h : Z => Some [(1%positive, h)] in
+  sees all_to_one id_conv pe (VDict []) (VDict []) E /\
+  Overhang.allow_overhang E 5 [(2%positive, 3)] = Some 3 /\
+  run_spec all_to_one id_conv (AdjAllow pe (Leaf 2 LDist)) (VDict []) (sa_npm (VInt 5) (VDict (of_cz [(2%positive, 3)])) (VDict []))
+  = Ok (VDict [(KC 1, VInt 8)]).
+Proof.
+  split; [|split; reflexivity].
+  intros h p H. inversion H; subst p. reflexivity.
+Qed.
+
+(* ... and by constituency, composed with Model/OverhangByC.v (C15): AdjustedSeatCount(LevelOverhangByConstituency(ce, oe), e),
+   ce and oe any wrapper trees answering with integer distributions (result keys may be Ties), is e evaluated with
+   n + bc_calculate's adjustment *)
+Theorem C14_adjusted_level_byc : forall leaf conv ce oe e fuel votes nat n res prev mx OEm a,
+  totals_s votes = Ok nat ->
+  run_spec leaf conv ce votes (KW (Some (VInt n)) None (Some mx) None None None) = Ok (VDict (of_nested res)) ->
+  (forall h pr, OEm h = OverhangByC.Ok pr ->
+                run_spec leaf conv oe nat (KW (Some (VInt h)) None (Some mx) None None None) = Ok (VDict (of_kz pr))) ->
+  OverhangByC.bc_calculate key_eqb OEm (OverhangByC.Ok res) fuel n prev = OverhangByC.BC_ok a ->
+  run_spec leaf conv (AdjLevelC ce oe e fuel) votes (sa_npm (VInt n) (VDict (of_nested prev)) mx)
+  = run_spec leaf conv e votes (sa_npm (VInt (n + a)) (VDict (of_nested prev)) mx).
+Proof. exact adjusted_levelc_tree. Qed.
+
+(* satisfiable: one constituency where party 1 gets 2 proportional seats and holds 1, party 2 holds 3 seats without any
+   second round vote; the overall evaluator gives every seat to party 1 - the house of 4 grows by one seat *)
+Definition byc_leaf (l : positive) (v : val) (args : list (option val)) : res val :=
+  match l with
+  | 1%positive => Ok (VDict [(KC 101, VDict [(KC 1, VInt 2)])])
+  | _ => match args with Some (VInt h) :: _ => Ok (VDict [(KC 1, VInt h)]) | _ => raise E_TYPE end
+  end.
+Example C14_adjusted_byc_nonvacuous :
+  let votes := VDict [(KC 101, VDict [(KC 1, VInt 10)])] in
+  let res := [(101%positive, [(KC 1, 2)])] in
+  let prev := [(101%positive, [(KC 1, 1); (KC 2, 3)])] in
+  let OEm := fun h : Z => OverhangByC.Ok [(KC 1, h)] in
+  totals_s votes = Ok (VDict [(KC 1, VInt 10)]) /\
+  run_spec byc_leaf id_conv (Leaf 1 LDist) votes (KW (Some (VInt 4)) None (Some (VDict [])) None None None) = Ok (VDict (of_nested res)) /\
+  (forall h pr, OEm h = OverhangByC.Ok pr ->
+                run_spec byc_leaf id_conv (VSys (Leaf 2 LDist)) (VDict [(KC 1, VInt 10)]) (KW (Some (VInt h)) None (Some (VDict [])) None None None)
+                = Ok (VDict (of_kz pr))) /\
+  OverhangByC.bc_calculate key_eqb OEm (OverhangByC.Ok res) 10 4 prev = OverhangByC.BC_ok 1.
+Proof.
+  split; [reflexivity|]. split; [reflexivity|]. split; [|reflexivity].
+  intros h pr H. inversion H; subst pr. reflexivity.
+Qed.
+
 Print Assumptions C14_compose_partial.
+Print Assumptions C14_adjusted_level_byc.
+Print Assumptions C14_adjusted_allow.
+Print Assumptions C14_adjusted_level.
+Print Assumptions C14_totals_declarative.
+Print Assumptions C14_subset_declarative.
+Print Assumptions C14_parts_agree.
+Print Assumptions C14_unused_seats_left.
+Print Assumptions C14_compose_seated_partial.
+Print Assumptions C14_seat_number_to_seatless_refuted.
 Print Assumptions C14_compose_unfaithful_refuted.
 Print Assumptions C14_seatless_behind_generic_refuted.
 Print Assumptions C14_all_zero_stop.
